@@ -121,6 +121,11 @@ def _tag(v):
     return "o:" + repr(v)
 
 
+def vo_snapshot_jsonable(x):
+    """tuples -> lists, so that dumps that travelled through JSON compare equal to local ones"""
+    return json.loads(json.dumps(x))
+
+
 def estimator_snapshot(obj, with_json=True):
     """State of a fitted discretizer/carver as plain data (no library lookups besides to_json)."""
     snap = {
